@@ -190,15 +190,120 @@ C02_CLASSES = {"result-does-not-map-back", "hit-not-stable", "other-table-touche
                "invalid-id-handling", "set-del-not-exact"}
 
 
+def highlevel_recency(ctx, cov):
+    """The requests a user makes — TupimageTerminal.assign_id / upload — from TWO terminal objects (and a force-set now and
+    then) on one session database with a small subspace: every request refreshes the recency of the id it returns (its
+    row is the most recent one afterwards), returns the same id for the same image while it is assigned, and whatever it
+    evicts is the least recently used assignment of the subspace."""
+    import os
+    work = ctx.work
+    rng = ctx.rng
+    hists = []
+    for _ in range(ctx.pick(25, 250)):
+        hists.append({"sub": rng.choice(["10:13", "10:14", "200:203"]), "steps": [(rng.randrange(2), rng.randrange(6), rng.random() < 0.1) for _ in range(rng.randrange(6, 16))]})
+
+    def child():
+        common.scrub_process_env()
+        os.environ["HOME"] = work
+        os.environ["XDG_STATE_HOME"] = os.path.join(work, "state")
+        os.environ["XDG_CONFIG_HOME"] = os.path.join(work, "config")
+        import sqlite3
+        import tupimage
+        import tupimage.id_manager as idm
+        from PIL import Image
+        from c04 import Clock, from_us, install_clock
+
+        class AutoClock(Clock):
+            def now(self):
+                self.now_us += 1000
+                return from_us(self.now_us)
+        clock = AutoClock()
+        clock.now_us = 10**9
+        install_clock(idm, clock)
+        tty_in = open("/dev/tty", "rb", buffering=0)
+        imgs = []
+        for i in range(6):
+            p = os.path.join(work, f"c02-hl-{i}.png")
+            Image.new("RGB", (3 + i, 3), (i * 30, 5, 5)).save(p)
+            imgs.append(p)
+        out = []
+        for hi, h in enumerate(hists):
+            db = os.path.join(work, f"c02-hl-{os.getpid()}-{hi}.db")
+            terms = [tupimage.TupimageTerminal(out_command=common.RecStream(), out_display=common.RecStream(), in_response=tty_in, id_database=db, config="DEFAULT",
+                                               id_space="8bit", id_subspace=h["sub"], upload_method="direct", redetect_terminal=False, terminal_id=f"T{k}", session_id="S")
+                     for k in range(2)]
+            conn = sqlite3.connect(db)
+
+            def table():
+                return sorted(conn.execute("SELECT id, description, atime FROM ids_8bit").fetchall())
+            log = []
+            for (ti, ii, forced) in h["steps"]:
+                before = table()
+                try:
+                    if forced:
+                        b, e = (int(x) for x in h["sub"].split(":"))
+                        inst = terms[ti].assign_id(imgs[ii], cols=1, rows=1, force_id=b + ii % (e - b))
+                    else:
+                        inst = terms[ti].assign_id(imgs[ii], cols=1, rows=1)
+                    rid = inst.id
+                except Exception as e_:  # noqa: BLE001
+                    rid = "EXC:" + type(e_).__name__
+                log.append([ti, ii, forced, rid, before, table()])
+            conn.close()
+            for t in terms:
+                t.id_manager.close()
+            os.remove(db)
+            out.append(log)
+        return out
+
+    r = common.in_pty(child, timeout=600)
+    if "ok" not in r:
+        ctx.corr_breaks.append({"what": "two-terminal recency histories failed in the pty sandbox", "error": {k: v for k, v in r.items() if k != "tty"}})
+        return
+    for h, log in zip(hists, r["ok"]):
+        cov.add({"highlevel": h["sub"], "steps": h["steps"][:8]}, klass="highlevel/two-terminals")
+        holder = {}
+        import datetime as _dt
+        for si, (ti, ii, forced, rid, before, after) in enumerate(log):
+            before = [(a, b, _dt.datetime.fromisoformat(c)) for a, b, c in before]
+            after = [(a, b, _dt.datetime.fromisoformat(c)) for a, b, c in after]
+            what = None
+            if isinstance(rid, str):
+                what = f"the request raised {rid}"
+            else:
+                rows = {r_[0]: r_ for r_ in after}
+                if rid not in rows:
+                    what = f"the returned id {rid} is not assigned afterwards"
+                elif any(r_[2] >= rows[rid][2] for r_ in after if r_[0] != rid):
+                    what = f"the returned id {rid} is not the most recently used assignment afterwards (recency not refreshed): {after}"
+                else:
+                    held = [r_[0] for r_ in before if r_[1] == rows[rid][1]]
+                    if not forced and held and rid not in held:
+                        what = f"the image already held id(s) {held} but the request returned {rid}"
+                    gone = [r_ for r_ in before if r_[0] not in rows or rows[r_[0]][1] != r_[1]]
+                    if not forced and what is None and gone:
+                        kept = [r_ for r_ in before if r_ not in gone]
+                        if len(gone) > 1 or any(k_[2] < gone[0][2] for k_ in kept):
+                            what = f"the request displaced {gone} although an older assignment was kept ({kept})"
+            if what:
+                ctx.violations.append({"signature": {"class": "recycled-not-lru" if "displaced" in what else "hit-not-stable", "path": "high-level"},
+                                       "what": f"two TupimageTerminal objects on one database, subspace {h['sub']}, step {si} (terminal {ti}, image {ii}{', force_id' if forced else ''}): {what}",
+                                       "case": {"kind": "step", "request": None, "observed": str(log[max(0, si - 2):si + 1])[:600]}})
+                break
+
+
 def run(ctx, model):
     cov = common.Coverage("case = one history (random get_id / set_id / del_id / cleanup / get_all+count+get_info operations on 1-3 (space, subspace) pairs of one database; every third history uses a subspace too large to enumerate with forced sample collisions); non-trivial = contains a full-subspace recycle, a clean-up or a sampling round after a clean-up; distinct by hash of the first operations")
     if model is None:
         return cov
     run_histories(ctx, model, cov, C02_CLASSES)
+    highlevel_recency(ctx, cov)
     return cov
 
 
 def replay(ctx, model, rec):
     case = rec["case"]
+    if not case.get("request"):
+        return {"violates": False, "note": "re-run the check with the same seed to replay the high-level history", "observed": case.get("observed")}
     rep = model.one(case["request"])
     return {"violates": False, "model_says": rep[:500], "observed": case.get("observed"), "note": "re-run the check with the same seed to replay the history on the implementation"}
